@@ -13,13 +13,15 @@
 (*             the API fixes (state_test.go: Get -> nil, Replace/Remove -> *)
 (*             no-op, SetTop(-(n+1)) empties the list);                    *)
 (*   clamped   no documented meaning but harmless: Insert(v, 0),           *)
-(*             Insert(v, i < -n), SetTop(i < -(n+1)).  The result list is  *)
-(*             unspecified (explicit nondeterminism, bound to the observed *)
-(*             list in TRACE mode) - only frame privacy is required;       *)
+(*             Insert(v, i < -n), Insert(v, i > n+1), SetTop(i < -(n+1)).  *)
+(*             The result list is unspecified (explicit nondeterminism,    *)
+(*             bound to the observed list in TRACE mode) - but it must be  *)
+(*             a list of Lua values (every index 1..top holds a value,     *)
+(*             never a Go nil) and frame privacy is required;              *)
 (*   excluded  programmer errors, never generated: Pop(k > n) (raises      *)
-(*             "register underflow"), Insert(v, i > n+1) (leaves holes),   *)
-(*             pseudo-indices, a host function returning more values than  *)
-(*             its list holds, Call with fewer than nargs+1 values.        *)
+(*             "register underflow"), pseudo-indices, a host function      *)
+(*             returning more values than its list holds, Call with fewer  *)
+(*             than nargs+1 values.                                        *)
 (***************************************************************************)
 EXTENDS Integers, Sequences
 
@@ -45,6 +47,7 @@ SetTop(l, i) == IF i >= 0 THEN Resize(l, i) ELSE Resize(l, Len(l) + 1 + i)   \* 
 
 InsertAt(l, v, p) == SubSeq(l, 1, p - 1) \o <<v>> \o SubSeq(l, p, Len(l))
 InsertExact(l, i) == (i >= 1 /\ i <= Len(l) + 1) \/ (i < 0 /\ i >= 0 - Len(l))
+(* beyond top+1: clamped class; not part of the transcription in ApiStackImpl *)
 InsertExcluded(l, i) == i > Len(l) + 1
 (* A negative index may be resolved against the list before the insertion   *)
 (* (v lands just below the element addressed) or after it (v is the element *)
